@@ -92,18 +92,21 @@ CHECKS = {
     "C14": ("exploration", "4.C14",
             "Wrappers over every alias of parse_ilog_data and over PTETable.get_entry compare each call with an "
             "independent model on harness-written tables (so the oracle knows the table) and on both shipped tables "
-            "(independent scanner, size cross-checked with PTE_TABLE_SIZE).",
+            "(independent scanner, size cross-checked with PTE_TABLE_SIZE); the section inside a PEL through peltool in a process "
+            "of its own (-f/-a/-i/-j/-j -x), link-farm and C-locale children must show the plug-in's result.",
             "trusts ilog_ref; Python's % operator is the formatting semantics",
             "reference-model monitor on the real decoder"),
     "C15": ("exploration", "4.C15",
             "Wrappers over every alias of parse_trace_data and TraceStringFile.get_trace_string compare each call with "
             "trace_ref / find_string on synthetic and shipped string files; buffers carry oversized/mis-trailed/truncated "
-            "entries and are additionally truncated at every k-th offset.",
+            "entries and are additionally truncated at every k-th offset; trace sections inside PELs go through peltool in a "
+            "process of its own with %c arguments that need escaping or cannot be encoded.",
             "trusts trace_ref; both readings accepted when the declared size falls inside an entry",
             "reference-model monitor on the real decoder"),
     "C16": ("exploration", "4.C16",
             "Wrappers over parse_hlog_data / get_hlog_fields compare each call with hlog_ref on synthetic and shipped "
-            "field tables, every data length 0..record+8 and a single non-zero byte at every offset.",
+            "field tables, every data length 0..record+8 and a single non-zero byte at every offset; the section inside a PEL "
+            "through peltool, a link-farm installation and the C locale give the same result.",
             "trusts hlog_ref and the default dump layout", "reference-model monitor on the real decoder"),
     "C17": ("exploration", "4.C17",
             "A wrapper over parse_dump_data compares the output with the model composed from the C14/C15 models; wrappers "
@@ -124,7 +127,8 @@ CHECKS = {
             "Histories of decode operations run in children forked from a pristine zygote process; after every operation "
             "the result is compared with a fresh reference (a child that decoded only that PEL), scanned for unique tokens "
             "of other PELs, and the four import caches are checked against per-module fresh-import verdicts; violating "
-            "histories are shrunk by delta debugging; -a/-a -r arrays are compared with per-file fresh documents.",
+            "histories are shrunk by delta debugging; -a/-a -r arrays are compared with per-file fresh documents; several "
+            "main() invocations in one process each print what they print in a process of their own.",
             "os.fork gives history-free references; fixture plugins are pure functions of their arguments",
             "differential history monitor with fork-fresh references + cache invariant at quiescent points"),
     "C20": ("exploration", "4.C20",
